@@ -13,7 +13,6 @@ package lockstep
 import (
 	"bufio"
 	"context"
-	"errors"
 	"fmt"
 	"os"
 	"runtime"
@@ -41,6 +40,7 @@ type cfg struct {
 	ival, freq       int // Throttling interval / Emit frequency (virtual ms)
 	seed             int
 	caps             []int // Join: per-input capacities
+	ek               string // [errkinds] kind of the error a failing element returns (errkinds_test.go); "" = plain
 }
 
 func parseCfg(s string) cfg {
@@ -80,6 +80,8 @@ func parseCfg(s string) cfg {
 			c.freq = iv
 		case "seed":
 			c.seed = iv
+		case "ek": // [errkinds]
+			c.ek = p[1]
 		case "fail":
 			for _, x := range strings.Split(p[1], ",") {
 				if x != "" {
@@ -255,7 +257,7 @@ func (e *env) either(f func(int) int) func(int) (int, error) {
 	return func(x int) (int, error) {
 		e.gate(x)
 		if e.fails(x) {
-			return 0, errors.New(strconv.Itoa(x))
+			return 0, e.failure(x) /* [errkinds] */
 		}
 		return f(x), nil
 	}
@@ -265,7 +267,7 @@ func (e *env) eitherB(f func(int) bool) func(int) (bool, error) {
 	return func(x int) (bool, error) {
 		e.gate(x)
 		if e.fails(x) {
-			return true, errors.New(strconv.Itoa(x))
+			return true, e.failure(x) /* [errkinds] */
 		}
 		return f(x), nil
 	}
@@ -275,7 +277,7 @@ func (e *env) arrow() func(context.Context, int, chan<- int) error {
 	return func(ctx context.Context, x int, out chan<- int) error {
 		e.gate(x)
 		if e.fails(x) {
-			return errors.New(strconv.Itoa(x))
+			return e.failure(x) /* [errkinds] */
 		}
 		for _, b := range gFMap(x) {
 			select {
